@@ -29,6 +29,7 @@ import tempfile
 from harness import c09_driver as D
 from harness.common import MachineryError
 
+ALL_HOSTS = ["10.0.0.1", "192.168.178.214", "2001:db8::7", "fe80::aede:48ff:fe00:1122%eth0"]
 API_HOSTS = ["10.0.0.1", "fe80::aede:48ff:fe00:1122%eth0", "2001:db8::7"]
 WRITABLE = [(1, 2), (1, 9), (1, 10), (2, 2), (2, 9)]
 IDENTIFY = [[1, 2], [2, 2]]
@@ -46,11 +47,11 @@ def _ct(ctype):
 # ----------------------------------------------------------------------------------------------
 # (B) exported connection-level cases on one session
 # ----------------------------------------------------------------------------------------------
-def _open(host, secure):
+def _open(host, secure, hosts=None):
     """Open a session; a session that cannot be set up because the accessory received bytes that never
     form a complete request (strict reader: CR LF line ends, Content-Length) is a finding, not a crash."""
     try:
-        return D.Session(host, secure), None
+        return D.Session(host, secure, hosts), None
     except D.SetupFailed as ex:
         if ex.stray:
             return None, (f"session setup on {host} (secure={secure}) failed ({ex.cause}): the accessory received "
@@ -229,6 +230,35 @@ def _api_job(args):
         record({"api": "remove_pairing"}, False, False, p.remove_pairing("second-controller"))
         for aid, w, h in [(1, 640, 480), (2, 1, 1), (1, 1920, 1080)]:
             record({"api": "image", "aid": aid, "w": w, "h": h}, True, False, p.image(aid, w, h))
+        # values / ids the fast JSON encoder may refuse: "raises, nothing written" or a canonical request
+        def lenient(name, method, target, coro):
+            err = None
+            try:
+                sess.run(coro)
+            except Exception as ex:  # noqa: BLE001
+                err = f"{type(ex).__name__}: {ex}"
+            reqs, probs = D.observe(sess, True, False)
+            replay = {"kind": "api_refusable", "host": host, "call": name}
+            for pr in probs:
+                viols.append((pr, replay, None))
+            if not reqs:
+                if not err:
+                    viols.append((f"{name} returned normally but no request reached the accessory", replay, None))
+                return
+            for r in reqs:
+                records.append({"call": {"api": "conn", "method": method, "target": target, "ctype": D.JSONT,
+                                         "bkind": "json", "json": D.NULL_TREE, "cmp": False},
+                                "secure": True, "host": hostrec, "reqs": [r], "_case": None})
+        for _ in range(6 + nrand // 4):
+            core = rng.choice(
+                [2 ** 64, -2 ** 63 - 1, 2 ** 70, "abc\ud83d", _nested(300, {"a": [1, 2]}),
+                 {"serial": 2 ** 70, "tags": ["a", "b"]}, [1, 2 ** 64]])
+            aid, iid = rng.choice(WRITABLE)
+            lenient(f"put_characteristics([({aid}, {iid}, {repr(core)[:60]})])", "PUT", "/characteristics",
+                    p.put_characteristics([(aid, iid, core), (1, 9, True)]))
+        lenient("subscribe([(2**64, 9), (1, 9)])", "PUT", "/characteristics", p.subscribe([(2 ** 64, 9), (1, 9)]))
+        lenient("unsubscribe([(1, 9), (1, 2**70)])", "PUT", "/characteristics", p.unsubscribe([(1, 9), (1, 2 ** 70)]))
+        lenient("image(2**64, 640, 480)", "POST", "/resource", p.image(2 ** 64, 640, 480))
         stray = sess.stray_bytes()
         if stray:
             viols.append((f"{stray} stray byte(s) at the accessory (host {host})", {"kind": "stray", "host": host}, None))
@@ -253,6 +283,31 @@ def _rand_json(rng, depth=0):
     return {k: _rand_json(rng, depth + 1) for k in keys}
 
 
+def _nested(depth, core):
+    v = core
+    for _ in range(depth):
+        v = [v]
+    return v
+
+
+def _refusable(rng):
+    """Values the fast encoder may refuse (integer outside [-2^63, 2^64-1], nesting deeper than 254 levels,
+    unpaired surrogate), placed inside containers so that a non-compact encoder would show its separators.
+    Allowed outcomes: the call raises and nothing is written, or a canonical compact request is written."""
+    core = rng.choice([2 ** 64, -2 ** 63 - 1, 2 ** 70, -2 ** 100, "abc\ud83d", "\udc00x",
+                       _nested(rng.choice([256, 260, 300]), {"a": [1, 2]})])
+    wrap = rng.randrange(5)
+    if wrap == 0:
+        return {"serial": core, "tags": ["a", "b"]}
+    if wrap == 1:
+        return [1, core, {"k": None}]
+    if wrap == 2:
+        return {"characteristics": [{"aid": 1, "iid": 9, "value": core}]}
+    if wrap == 3:
+        return {"a": {"b": [core, core]}, "c": 1.5}
+    return _nested(rng.choice([3, 260]), {"v": core, "w": [True, False]})
+
+
 def _norm(v):
     if isinstance(v, dict):
         return {str(k): _norm(x) for k, x in v.items()}
@@ -268,11 +323,13 @@ def _randjson_job(args):
     if sess is None:
         return [], [v], 0
     records, viols = [], []
+    nrefused = nrefused_ordinary = 0
     try:
         if secure:
             D.observe(sess, False, False)
         for i in range(n):
-            val = _rand_json(rng)
+            refusable = i % 6 == 5
+            val = _refusable(rng) if refusable else _rand_json(rng)
             if rng.random() < 0.15 and isinstance(val, dict):
                 val = {**val, 7: "int key"}          # orjson OPT_NON_STR_KEYS
             via = rng.choice(["put_json", "post_json"])
@@ -282,9 +339,15 @@ def _randjson_job(args):
             except Exception as ex:  # noqa: BLE001
                 err = f"{type(ex).__name__}: {ex}"
             reqs, probs = D.observe(sess, True, False)
-            replay = {"kind": "random_json", "host": host, "secure": secure, "via": via, "value": repr(val)}
+            replay = {"kind": "random_json", "host": host, "secure": secure, "via": via, "value": repr(val)[:2000]}
+            if not reqs and err and not sess.stray():
+                # the call raised and nothing was written: fine for C09 (which is about requests that are sent)
+                nrefused += 1
+                if not refusable:
+                    nrefused_ordinary += 1
+                continue
             if len(reqs) != 1:
-                viols.append((f"{via}({val!r}) {err or ''}: accessory saw {len(reqs)} request(s)", replay, None))
+                viols.append((f"{via}({repr(val)[:300]}) {err or ''}: accessory saw {len(reqs)} request(s)", replay, None))
                 continue
             for p in probs:
                 viols.append((p, replay, None))
@@ -292,22 +355,101 @@ def _randjson_job(args):
             try:
                 back = json.loads(reqs[0]["text"].encode("latin-1").decode("utf-8"))
                 if back != _norm(val):
-                    viols.append((f"{via}: body {reqs[0]['text'][:200]!r} does not decode to the value passed {val!r}",
-                                  replay, None))
+                    viols.append((f"{via}: body {reqs[0]['text'][:200]!r} does not decode to the value passed "
+                                  f"{repr(val)[:300]}", replay, None))
             except ValueError as ex:
                 viols.append((f"{via}: body is not valid UTF-8 JSON ({ex})", replay, None))
             records.append({"call": {"api": "conn", "method": "PUT" if via == "put_json" else "POST",
                                      "target": "/characteristics", "ctype": D.JSONT, "bkind": "json",
                                      "json": D.NULL_TREE, "cmp": False},
                             "secure": secure, "host": _hostrec(host), "reqs": reqs, "_case": None})
+        if nrefused_ordinary > n // 10:
+            raise MachineryError(f"{nrefused_ordinary} of {n} ordinary JSON values were refused by put_json/post_json")
     finally:
         sess.close()
     return records, viols, len(records)
 
 
+# ----------------------------------------------------------------------------------------------
+# histories of ONE connection object: connect, request, loss, automatic reconnect to another address
+# ----------------------------------------------------------------------------------------------
+def _history_job(args):
+    hists, secure, seed = args
+    records, viols = [], []
+    for hi, h in hists:
+        rng = random.Random(f"{seed}/hist/{hi}/{secure}")
+        route = [x["text"] for x in h["route"]]
+        advertised = sorted({x for x in ALL_HOSTS} | set(route))
+        replay = {"kind": "history", "secure": secure, "route": route, "mask": h["mask"]}
+        sess, v = _open(route[0], secure, hosts=advertised)
+        if sess is None:
+            viols.append(v)
+            continue
+        try:
+            for i, host in enumerate(route):
+                if i > 0:
+                    try:
+                        sess.lose_and_reconnect(host, reset=rng.random() < 0.25)
+                    except D.SetupFailed as ex:
+                        if ex.stray:
+                            viols.append((f"history {route} (secure={secure}): reconnect #{i} to {host} failed "
+                                          f"({ex.cause}); the accessory received bytes that form no complete "
+                                          f"request: {ex.stray[:200]!r}", {**replay, "received": ex.stray}, None))
+                            break
+                        raise MachineryError(f"history {route} (secure={secure}): {ex.cause}") from ex
+                if secure:
+                    reqs, _ = D.observe(sess, False, False)          # the library's own pair-verify on this socket
+                    if len(reqs) != 2 or any(r["_host"] != host for r in reqs):
+                        raise MachineryError(f"history {route}: expected pair-verify on {host}, saw "
+                                             f"{[(r['_target'], r['_host']) for r in reqs]}")
+                    records.append({"call": {"api": "pair_verify"}, "secure": False, "host": _hostrec(host),
+                                    "reqs": reqs, "_case": None})
+                if not h["mask"][i]:
+                    continue
+                # (B) the request the specification's history machine writes on this connection
+                try:
+                    sess.run(sess.conn.get("/accessories"))
+                except Exception:  # noqa: BLE001
+                    pass
+                reqs, _ = D.observe(sess, False, False)
+                if len(reqs) != 1 or reqs[0]["_host"] != host:
+                    viols.append((f"history {route} (secure={secure}): GET on connection #{i + 1} ({host}): accessory "
+                                  f"saw {[(r['_target'], r['_host']) for r in reqs]}; unparsed {sess.stray()[:100]!r}",
+                                  replay, None))
+                    break
+                if reqs[0]["raw"] != h["heads"][i]:
+                    viols.append((f"history {' -> '.join(route)} (secure={secure}): request on connection #{i + 1} to "
+                                  f"{host} was {reqs[0]['raw']!r}; specification (HostHeader of the current "
+                                  f"connection): {h['heads'][i]!r}", {**replay, "step": i, "observed": reqs[0]["raw"]},
+                                  None))
+                records.append({"call": {"api": "conn", "method": "GET", "target": "/accessories", "ctype": "",
+                                         "bkind": "none", "json": D.NULL_TREE, "cmp": False},
+                                "secure": secure, "host": _hostrec(host), "reqs": reqs, "_case": None})
+                # and a request with a body, validated by the trace module only
+                val = {"characteristics": [{"aid": 1, "iid": 9, "value": i}]}
+                try:
+                    sess.run(sess.conn.put_json("/characteristics", val))
+                except Exception:  # noqa: BLE001
+                    pass
+                reqs, probs = D.observe(sess, True, False)
+                for p in probs:
+                    viols.append((p, replay, None))
+                if len(reqs) == 1 and reqs[0]["_host"] == host:
+                    records.append({"call": {"api": "conn", "method": "PUT", "target": "/characteristics",
+                                             "ctype": D.JSONT, "bkind": "json", "json": D.NULL_TREE, "cmp": False},
+                                    "secure": secure, "host": _hostrec(host), "reqs": reqs, "_case": None})
+                else:
+                    viols.append((f"history {route} (secure={secure}): put_json on connection #{i + 1}: accessory saw "
+                                  f"{len(reqs)} request(s)", replay, None))
+                    break
+        finally:
+            sess.close()
+    return records, viols, len(records)
+
+
 def _dispatch(job):
     kind, args = job
-    return {"conn": _conn_job, "api": _api_job, "rand": _randjson_job}[kind](args)
+    return {"conn": _conn_job, "api": _api_job, "rand": _randjson_job, "hist": _history_job}[kind](args)
 
 
 def _strip(rec):
@@ -346,6 +488,12 @@ def run(ctx):
             if not isinstance(r.get("text"), str):
                 r["text"] = ""
             c["body"] = c["body"] if isinstance(c["body"], str) else ""
+        hist_out = os.path.join(tmp, "hist.ndjson")
+        ctx.tlc("http/HttpHostHistory", ctx.pick("HttpHostHistory_3.cfg", "HttpHostHistory_4.cfg"),
+                env={"HIST_OUT": hist_out}, label="Host header over connect / loss / reconnect histories + export")
+        hists = list(enumerate(json.loads(line) for line in open(hist_out)))
+        if not hists:
+            raise MachineryError("no histories exported")
         # ---------------- (B) + recording for (C)
         by_host = {}
         for ci, c in enumerate(cases):
@@ -361,6 +509,10 @@ def run(ctx):
         nj = ctx.pick(150, 2500)
         for host, secure in (("10.0.0.1", False), ("fe80::1", True)) + ctx.pick((), (("2001:db8::7", False), ("192.168.178.214", True))):
             jobs.append(("rand", (host, secure, ctx.seed, nj)))
+        for secure in (False, True):
+            for off in range(0, len(hists), 28):
+                jobs.append(("hist", (hists[off:off + 28], secure, ctx.seed)))
+        ctx.notes["histories"] = 2 * len(hists)
         records = []
         reported = set()
         nviol = 0
